@@ -7,6 +7,7 @@ unregisters its waiter. That R/W/D goroutines actually exit is observed on cycle
 import OAP.Model.Client.SingleFlight
 import OAP.Proofs.Waiters
 import OAP.Gen.Facts
+import OAP.Model.Client.Recovery
 namespace OAP.C16
 open OAP
 
@@ -41,5 +42,21 @@ theorem returning_unregisters (s : Waiters.St) (i c r : Nat) (res : Option Waite
     ∃ s', Waiters.step s (.finish i) = some s' ∧ s'.recvs r = none := by
   refine ⟨_, by simp [Waiters.step, h]; rfl, ?_⟩
   simp [Waiters.unregister, ht]
+
+
+/-! ### the same bounds on view Recovery (the current `reconnecting`, with Close and hit-max) -/
+
+/-- at most one retry goroutine exists, whatever the number of losses, notifiers and Close calls -/
+theorem recovery_bounded_threads (m : Nat) (acts : List Recovery.Act) (s : Recovery.St)
+    (h : Recovery.run (Recovery.init m) acts = some s) (t u : Nat)
+    (ht : Recovery.rLive (s.rc t)) (hu : Recovery.rLive (s.rc u)) : t = u :=
+  Recovery.single_flight m acts s h t u ht hu
+
+/-- while the client is open a loss starts at most one recovery; goroutines started after the close signal never attempt
+(they leave at their first `closed()` test), so replaced connections do not accumulate -/
+theorem recovery_one_per_loss_partial (m : Nat) (acts : List Recovery.Act) (s : Recovery.St)
+    (h : Recovery.run (Recovery.init m) acts = some s) (c : Nat) :
+    (s.closedSig = false → s.spawns c ≤ 1) ∧ s.spawnsOpen c ≤ 1 ∧ s.lateAttempts = 0 :=
+  Recovery.one_recovery_per_loss_partial m acts s h c
 
 end OAP.C16
